@@ -821,6 +821,17 @@ def h_extend(I, st, fr, e, c, a):
     return [(st, UNIT, None)]
 
 
+def h_append(I, st, fr, e, c, a):
+    """a.append(&mut b): a becomes a ++ b, b becomes empty."""
+    place, cur = place_of(I, st, a[0])
+    place2, other = place_of(I, st, a[1])
+    if not isinstance(cur, VSeq) or not isinstance(other, VSeq):
+        raise NotImplementedError("append on " + type(cur).__name__ + " / " + type(other).__name__)
+    I.write_place(st, place, VSeq(mk_concat([cur.t, other.t])))
+    I.write_place(st, place2, VSeq(EMPTY))
+    return [(st, UNIT, None)]
+
+
 def h_pop(I, st, fr, e, c, a):
     """v.pop(): None on the empty vector, else the last element (removed)."""
     place, cur = place_of(I, st, a[0])
@@ -1371,6 +1382,7 @@ TABLE = {
     "std::mem::replace": h_mem_replace,
     "std::mem::swap": h_mem_swap,
     "std::vec::Vec::<T, A>::clear": h_clear,
+    "std::vec::Vec::<T, A>::append": h_append,
     "core::slice::<impl [T]>::clone_from_slice": h_clone_from_slice2,
     "core::slice::<impl [T]>::copy_from_slice": h_clone_from_slice2,
     "core::slice::<impl [T]>::last": h_last,
